@@ -494,10 +494,27 @@ def _idna_ops(names):
     return [{"op": "idna", "s": s} for s in names]
 
 
-def evaluate(ctx, items, probe=None, model=None, prefix="idnagen:", what="to_idna", impl=None, mod=None):
+def py_alabel(name):
+    """Python's own reading of a name (str.lower + the punycode codec), None where it has none."""
+    out = []
+    for lab in name.split("."):
+        try:
+            low = lab.lower()
+            out.append(low if all(ord(c) < 128 for c in low) else "xn--" + low.encode("punycode").decode("ascii"))
+        except (UnicodeError, ValueError):
+            return None
+    return ".".join(out)
+
+
+def evaluate(ctx, items, probe=None, model=None, prefix="idnagen:", what="to_idna", impl=None, mod=None,
+             refusal_violates=False):
     """items: [(name, tags)].  Real to_idna + model + judge on every name; returns {name: A-label or None}
     (the MODEL's value, None when refused) for the names on which code, model and judge agree.
-    impl / mod: the answers of the probe / driver op `idna` for the names, when the caller already has them."""
+    impl / mod: the answers of the probe / driver op `idna` for the names, when the caller already has them.
+    refusal_violates: for properties that demand service for every domain name (C16): a name the CODE refuses although
+    no label has more than 63 characters, the model and Python's punycode codec give the same A-label and that A-label
+    is a well-formed host name (every label 1..63 LDH octets, 253 in all) is a judged failing input, not only a broken
+    correspondence; its A-label is returned so that the caller can put the name before the real program."""
     probe = probe or vlib.probe
     model = model or vlib.model
     names = [n for n, _ in items]
@@ -524,6 +541,15 @@ def evaluate(ctx, items, probe=None, model=None, prefix="idnagen:", what="to_idn
             continue
         if i != m:
             ctx.disagreements += 1
+            a = m.get("ok") if isinstance(m, dict) else None
+            if (refusal_violates and isinstance(i, dict) and "rejected" in i and isinstance(a, str) and HOST_RE.match(a)
+                    and all(0 < len(l) <= 63 for l in name.split(".")) and a == py_alabel(name)):
+                ctx.count(prefix + "refused:valid-name")
+                ctx.violation("%s(%r) is refused (%s) although the name is a valid domain name: no label has more than 63 "
+                              "characters and its A-label %r (model = Python's punycode codec) is a well-formed host name"
+                              % (what, name, i.get("rejected"), a), robj)
+                res[name] = a
+                continue
             ctx.broke("correspondence", "%s(%r): the code gives %r, Model.Lower / Model.Idna gives %r" % (what, name, i, m), robj)
             continue
         res[name] = m.get("ok")
